@@ -99,6 +99,9 @@ func (s bitmap32) And(provider Provider[uint32]) {
 		s.bitmap.And(typedProvider.bitmap)
 
 	case Duplex[uint32]:
+		// Take one consistent copy of the operand: a thread-safe operand may be written to between two lookups
+		typedProvider = typedProvider.Clone()
+
 		// Iterate over a snapshot: removing from the bitmap while iterating it skips values
 		s.Clone().Each(func(nextValue uint32) bool {
 			if !typedProvider.Contains(nextValue) {
@@ -139,6 +142,9 @@ func (s bitmap32) AndNot(provider Provider[uint32]) {
 		s.bitmap.AndNot(typedProvider.bitmap)
 
 	case Duplex[uint32]:
+		// Take one consistent copy of the operand: a thread-safe operand may be written to between two lookups
+		typedProvider = typedProvider.Clone()
+
 		// Iterate over a snapshot: removing from the bitmap while iterating it skips values
 		s.Clone().Each(func(nextValue uint32) bool {
 			if typedProvider.Contains(nextValue) {
